@@ -41,13 +41,14 @@ type ktChg struct {
 }
 
 type ktReg struct {
-	Acct string   `json:"acct"`
-	Path []string `json:"path"`
-	Slot int      `json:"slot"`
-	Off  int      `json:"off"`
-	Type string   `json:"type"`
-	Chg  []ktChg  `json:"chg"`
-	Kids []string `json:"kids"`
+	Acct  string   `json:"acct"`
+	Path  []string `json:"path"`
+	Slot  int      `json:"slot"`
+	Off   int      `json:"off"`
+	Type  string   `json:"type"`
+	Named bool     `json:"named"`
+	Chg   []ktChg  `json:"chg"`
+	Kids  []string `json:"kids"`
 }
 
 type ktTop struct {
@@ -272,6 +273,17 @@ func ktRun(h *ktHistory) (out []ktMismatch) {
 			fmt.Fprintf(&wb, "%d:%s, ", c.Idx, strings.Join(c.Vals, ","))
 		}
 		want := wb.String()
+		if !r.Named {
+			// registered under a name that already denoted another layout: only the by-slot view is judged
+			bs, err := sc.Slot(a, uint256.NewInt(uint64(r.Slot)), ktOff(r.Off), ktType(r.Type))
+			if err != nil {
+				miss("kt.lookup", "Slot query for the registered (slot %d, off %d, type %s) failed: %v", r.Slot, r.Off, r.Type, err)
+			}
+			if vs := render(bs); vs != want {
+				miss("kt.change", "registered (slot %d, off %d, type %s; its name already denoted another layout): journaled changes by slot {%s}, expected {%s}", r.Slot, r.Off, r.Type, vs, want)
+			}
+			continue
+		}
 		byName := sc.FindKeyIndices(a, r.Path[0], idx...)
 		if byName == nil {
 			miss("kt.lookup", "registered %v (slot %d off %d type %s) is not found by name path", r.Path, r.Slot, r.Off, r.Type)
